@@ -1511,6 +1511,8 @@ def list_segments(s: Summary, t, prov: Prov, depth: int = 0) -> list | None:
     if depth > 4:
         return None
     o = op(t)
+    if o == "call" and t[1] in (("builtin", "list"), ("builtin", "tuple")) and len(t[2]) == 1 and not t[3]:
+        return list_segments(s, t[2][0], prov, depth + 1)  # a copy holds the same elements in the same order
     if o == "list" or o == "tuple":
         out = []
         for e in t[1]:
